@@ -656,6 +656,9 @@ def run_property(pid, tier, jobs, level, trusted_base, assumptions, explanation,
     os.makedirs(pdir, exist_ok=True)
     os.makedirs(os.path.join(VERIF, "evidence"), exist_ok=True)
     os.makedirs(os.path.join(VERIF, "replay"), exist_ok=True)
+    import glob as _glob
+    for old in _glob.glob(os.path.join(VERIF, "replay", pid + "_*.json")):
+        os.remove(old)
     results, undecided = [], []
     nworkers = int(os.environ.get("VERIF_JOBS", "16"))
     with concurrent.futures.ThreadPoolExecutor(max_workers=nworkers) as ex:
